@@ -2670,6 +2670,17 @@ def make_ext_modules(I):
 
     E["operator"] = {"mul": bi("operator.mul", _op2("Mult")), "truediv": bi("operator.truediv", _op2("Div")),
                      "add": bi("operator.add", _op2("Add")), "sub": bi("operator.sub", _op2("Sub"))}
+
+    def _cmp2(opname):
+        # operator.lt / le / gt / ge / eq / ne (a, b) = the comparison operator on the same operands
+        def f(I, st, a, k):
+            if k or len(a) != 2:
+                raise Unsupported("operator.%s arguments" % opname)
+            yield from M.compare(I, st, opname, a[0], a[1])
+        return f
+
+    for _nm, _op in (("lt", "Lt"), ("le", "LtE"), ("gt", "Gt"), ("ge", "GtE"), ("eq", "Eq"), ("ne", "NotEq")):
+        E["operator"][_nm] = bi("operator." + _nm, _cmp2(_op))
     E["collections.abc"] = {"Iterable": BuiltinClass("collections.abc.Iterable")}
     import string as _string
 
